@@ -278,7 +278,11 @@ impl Store {
         page_cache: PageCache,
         updated_pages: impl IntoIterator<Item = (PageId, DirtyPage)> + Send + 'static,
     ) -> anyhow::Result<()> {
+        #[cfg(feature = "verif-hooks")]
+        crate::verif::yield_point(9);
         let mut sync = self.sync.lock();
+        #[cfg(feature = "verif-hooks")]
+        crate::verif::yield_point(10);
 
         if self
             .shared
@@ -313,7 +317,11 @@ impl Drop for Shared {
         // because we need to ensure that the flock is only dropped after the IO workers are done.
         // Otherwise, these IO workers might still be writing to the files while another process
         // acquired the flock.
+        #[cfg(feature = "verif-hooks")]
+        crate::verif::yield_point(11);
         self.io_pool.shutdown();
+        #[cfg(feature = "verif-hooks")]
+        crate::verif::yield_point(12);
         drop(self.flock.take());
     }
 }
